@@ -77,14 +77,14 @@ Codes == {"Ok", "EmptyInput", "IncompleteInput", "InvalidInput", "NoMemory", "To
 
 \* the byte-value nodes contain no TLC-incomparable parts: results are compared with =
 Props(inp, lim) ==
-  LET r == Deserialize(inp, Opts, lim, TrueV) IN
+  LET r == DeserializeJson(inp, Opts, lim, TrueV) IN
   /\ r.code \in Codes
   \* C15: the recursion never goes deeper than the limit allows, TooDeep exactly there
   /\ r.depth <= lim + (IF r.code = "TooDeep" THEN 0 ELSE 0)
   /\ r.code = "Ok" => NestingB(r.v) <= lim
   \* C16: the result is a function of the bytes taken from the input
   /\ r.code = "Ok" =>
-       LET r2 == Deserialize(SubSeq(inp, 1, r.read), Opts, lim, TrueV)
+       LET r2 == DeserializeJson(SubSeq(inp, 1, r.read), Opts, lim, TrueV)
        IN r2.code = "Ok" /\ r2.v = r.v /\ r2.read = r.read
   \* C10: an input that ends before its top-level array, object or string is closed is never accepted
   /\ (r.code = "Ok" /\ r.v.t \in {"a", "o", "s"}) => (r.read >= 1 /\ inp[r.read] \in {93, 125, 34, 39})
@@ -94,11 +94,11 @@ Props(inp, lim) ==
   \* C11: filtering = projecting the unfiltered result
   /\ r.code = "Ok" =>
        \A f \in Filters :
-          LET rf == Deserialize(inp, Opts, lim, f) IN
+          LET rf == DeserializeJson(inp, Opts, lim, f) IN
           rf.code = "Ok" /\ rf.v = Project(r.v, f)
 
 Case(inp, lim, f) ==
-  LET r == Deserialize(inp, Opts, lim, f) IN
+  LET r == DeserializeJson(inp, Opts, lim, f) IN
   [inp |-> inp, lim |-> lim, f |-> f, o |-> Opts, code |-> r.code, v |-> r.v, read |-> r.read,
    weird |-> (r.v.t = "#" /\ WeirdNumber(r.v.b))]
 
